@@ -812,10 +812,17 @@ impl SrtlaConnection {
                 return false;
             }
             // After grace period, or for connections that were previously established,
-            // if we've never received anything or haven't received in a while, consider it timed out
+            // if we've never received anything or haven't received in a while, consider it timed out.
+            // A disconnected link is waiting for its handshake, not riding out an outage: the
+            // runtime-tunable liveness window (up to 60 s) must not stretch that wait, or a link
+            // whose REG3 was lost / that was answered REG_ERR and then hears one stray datagram
+            // sits out the whole window before it re-registers. Cap it at the default.
+            let handshake_window = self
+                .conn_timeout_ms
+                .min(crate::config_snapshot::CONN_TIMEOUT_MS);
             return self
                 .last_received
-                .is_none_or(|lr| now.saturating_sub(lr) >= self.conn_timeout_ms);
+                .is_none_or(|lr| now.saturating_sub(lr) >= handshake_window);
         }
 
         // For established connections, check normal timeout
